@@ -72,3 +72,52 @@ Section RoundTrip.
   Theorem decode_escape_html_body : forall s, decode_text named (escape_html_body s) = s.
   Proof. intros s. unfold decode_text. apply decode_escape_fuel. apply escape_length_ge. Qed.
 End RoundTrip.
+
+(* every step of the text decoder consumes at least one character: the decoding loop of static
+   text terminates, and `length s` steps are enough (C01) *)
+Lemma scan_until_semi_shorter : forall ok s body rest,
+  scan_until_semi ok s = Some (body, rest) -> (length rest < length s)%nat.
+Proof.
+  intros ok. induction s as [|c r IH]; intros body rest H; [discriminate|].
+  cbn [scan_until_semi] in H. destruct (c =? 59).
+  - inversion H; subst. cbn. lia.
+  - destruct (ok c); [|discriminate]. destruct (scan_until_semi ok r) as [[b rs]|] eqn:E; [|discriminate].
+    inversion H; subst. specialize (IH b rest eq_refl). cbn. lia.
+Qed.
+
+Lemma scan_entity_shorter : forall s ent rest, scan_entity s = Some (ent, rest) -> (length rest < length s)%nat.
+Proof.
+  intros s ent rest H. unfold scan_entity in H.
+  destruct s as [|c r]; [discriminate|].
+  destruct (N.eqb_spec c 35) as [->|Hc].
+  - destruct r as [|d r']; [cbn in H; discriminate|].
+    destruct (N.eqb_spec d 120) as [->|Hd].
+    + destruct (scan_until_semi is_hex_c r') as [[b rs]|] eqn:E; [|discriminate].
+      inversion H; subst. apply scan_until_semi_shorter in E. cbn. lia.
+    + assert (H' : (if is_digit d then match scan_until_semi is_digit (d :: r') with
+                                        | Some (body, rest0) => Some (38 :: 35 :: body, rest0) | None => None end
+                    else None) = Some (ent, rest)).
+      { destruct d as [|p]; [exact H|]. repeat (destruct p as [p|p|]; try exact H); congruence. }
+      destruct (is_digit d); [|discriminate].
+      destruct (scan_until_semi is_digit (d :: r')) as [[b rs]|] eqn:E; [|discriminate].
+      inversion H'; subst. apply scan_until_semi_shorter in E. cbn in *. lia.
+  - assert (H' : (if is_alpha_c c then match scan_until_semi (fun x => is_alpha_c x || is_digit x) r with
+                                       | Some (body, rest0) => Some (38 :: c :: body, rest0) | None => None end
+                  else None) = Some (ent, rest)).
+    { destruct c as [|p]; [exact H|]. repeat (destruct p as [p|p|]; try exact H); congruence. }
+    destruct (is_alpha_c c); [|discriminate].
+    destruct (scan_until_semi _ r) as [[b rs]|] eqn:E; [|discriminate].
+    inversion H'; subst. apply scan_until_semi_shorter in E. cbn. lia.
+Qed.
+
+Theorem next_piece_progress : forall named s, s <> [] -> (length (snd (next_piece named s)) < length s)%nat.
+Proof.
+  intros named s Hs. destruct s as [|c r]; [congruence|]. unfold next_piece.
+  destruct (N.eqb_spec c 38) as [->|Hc].
+  - destruct (scan_entity r) as [[ent rest]|] eqn:E.
+    + apply scan_entity_shorter in E. destruct (entity_decode named ent); cbn; lia.
+    + cbn. lia.
+  - assert (E : forall (X : str * str), (match c with 38 => X | _ => ([c], r) end) = ([c], r)).
+    { intros X. destruct c as [|p]; [reflexivity|]. repeat (destruct p as [p|p|]; try reflexivity). congruence. }
+    rewrite E. cbn. lia.
+Qed.
